@@ -64,6 +64,8 @@ pub struct Faults {
     pub down_at_bs: Option<u64>,
     /// Which class of transport error the current outage produces (see `transport_error`).
     pub flavour: u8,
+    /// Scheduled outage scenarios: the chain thread has begun its closing polls; the environment starts no further outage.
+    pub no_more_outages: bool,
     /// Fail the n-th `get_block` call (1-based, counted since the last `arm_fetch_fault`).
     pub fetch_fault: Option<(u64, FetchFault)>,
     pub fetch_calls: u64,
@@ -517,6 +519,33 @@ impl NodeState {
         candidates.extend(old_mempool);
         self.revalidate_mempool(candidates);
         self.fire("F5_reorg");
+    }
+
+    /// `preciousblock` on a sibling of the tip (Bitcoin Core, src/rpc/blockchain.cpp `preciousblock` ->
+    /// `Chainstate::PreciousBlock`): the node switches to an **equal-work** branch -- the tip is replaced by one block at
+    /// the same height holding `txs` (those valid there); the transactions of the old tip go back to the mempool when still
+    /// valid. A poller that knew the old tip sees `ChainTip::Worse` with the same chainwork until a block is mined on top.
+    pub fn precious_sibling(&mut self, txs: Vec<Transaction>) -> bool {
+        let height = self.height();
+        if height < 3 || !self.lost.is_empty() {
+            return false;
+        }
+        let returned: Vec<Transaction> = self.block_at(height).clone().txdata.into_iter().skip(1).collect();
+        self.active.truncate(height as usize);
+        self.mine_rebuild_only();
+        let old_mempool = std::mem::take(&mut self.mempool);
+        let mut inc: Vec<Transaction> = vec![];
+        for tx in txs {
+            if self.minable(&tx, &inc) {
+                inc.push(tx);
+            }
+        }
+        self.mine(inc);
+        let mut cands = returned;
+        cands.extend(old_mempool);
+        self.readmit(cands);
+        self.fire("F5_equal_work_tip_switch");
+        true
     }
 
     /// The node has lost its last `k` blocks (unclean shutdown, `invalidateblock`): they leave the active chain, their
